@@ -141,6 +141,8 @@ def main(run, tier):
     import contracts.errors as ce
     cs, lemmas, env = ce.build(importlib.import_module('calmjs.parse.lexers.es5'), es5)
     verify_functions(run, cs, {}, {}, tier=tier)
+    from . import parsefwd
+    parsefwd.add(run, tier)
     run.floor = 8
     # ---- bounded
     allin = list(inputs(tier, run.seed, corpus))
